@@ -15,7 +15,7 @@ type Outcome struct {
 	Rec          int      // index of the touched record in Doc
 	Ent          int      // index of the created / modified entry (-1 = none)
 	NewRecord    bool
-	PositionFree bool       // the file is not date-sorted: only "other records keep their order" is demanded for a new record
+	PositionFree bool       // the file is not date-sorted: a new record must stand in order with its two neighbours, other records keep their order
 	AltSummaries [][]string // equally acceptable summaries for the touched entry (ties between "previous" records)
 	Undecided    string     // the model does not decide this case
 	TimeOff      int        // for start/stop/switch: the time written (offset relative to the touched record)
@@ -521,22 +521,30 @@ func compareWithModel(o Outcome, got *ref.Doc, c MCmd) string {
 			}
 		}
 		candidates := []*ref.Doc{base}
+		var positions []int
 		if o.PositionFree && o.NewRecord {
-			// any position of the new record is acceptable as long as all other records keep their order
+			// the file is not sorted by date, so "its chronological position" cannot mean a global order; what it does
+			// mean - and what is demanded - is that the new record stands in order with its neighbours (the record in
+			// front of it is not later, the record behind it is later; such a place always exists) and that all other
+			// records keep their order
 			rec := base.Recs[o.Rec]
 			rest := base.Clone()
 			rest.Recs = append(rest.Recs[:o.Rec], rest.Recs[o.Rec+1:]...)
 			candidates = nil
 			for p := 0; p <= len(rest.Recs); p++ {
+				if p > 0 && rec.Date.Less(rest.Recs[p-1].Date) || p < len(rest.Recs) && !rec.Date.Less(rest.Recs[p].Date) {
+					continue
+				}
 				cd := rest.Clone()
 				insertRec(cd, p, rec.Clone())
 				candidates = append(candidates, cd)
+				positions = append(positions, p)
 			}
 		}
 		for ci, cd := range candidates {
 			oo := o
 			if o.PositionFree && o.NewRecord {
-				oo.Rec = ci
+				oo.Rec = positions[ci]
 			}
 			save := o.Rec
 			o.Rec = oo.Rec
